@@ -17,7 +17,7 @@ RULE = ("(1) every subset (2^k) of the reference positions of base documents rew
         "parameters (operation and path-item level), request bodies (direct and through chains of 2 and 3 body references) and "
         "responses: endpoint modules byte-identical; (2) every schema position x kind, inline copy vs $ref: same behaviour, and "
         "every reference to one component resolves to one class object; (3) 14 malformed reference strings x every position: "
-        "diagnosed and contained (C08's cone oracle); (1m) several operations sharing reusable parameters / bodies / responses with EVERY use site independently inline or by reference (quick: <=3 and >=11 of 12 sites, thorough: all 2^12) x 2-4 path orders; part 2 also with references carrying sibling keywords and with suffix/prefix-related names x declaration order; part 3 also with siblings of the faulted model declared before / after / none; non-trivial = both variants generated and compared")
+        "diagnosed and contained (C08's cone oracle); (1m) several operations sharing reusable parameters / bodies / responses with EVERY use site independently inline or by reference (quick: <=3 and >=11 of 12 sites, thorough: all 2^12) x 2-4 path orders; part 2 also with references carrying sibling keywords and with suffix/prefix-related names x declaration order; part 3 also with siblings of the faulted model declared before / after / none; non-trivial = both variants generated and compared; kinds include a self-referential component and 3.0 nullable-reference / nullable-array wrappers")
 FLOOR = 0.5
 ASSUMPTIONS = ["C08's cone oracle is reused for malformed references", "behaviour equality is judged on re-encoded values and captured requests"]
 
